@@ -30,9 +30,9 @@ def check(ctx):
     ctx.rule("C02.T5", "the machine start instant is re-based only in iterations whose state calls are all initial calls (premise of state_tm >= 0 and of 'every repetition lasts as long as the first')")
     ctx.rule("C02.T4", "<state>_duration is created by the decorator as tunable(duration, writeDefault=False, subtable='state') under the name the engine reads")
     res = smcommon.run_universes(ctx, "StateMachine", owned=OWNED)
+    smcommon.report(ctx, res, OWNED)
     ctx.floor("universes", len(res), 4)
     ctx.floor("state function calls with timing checked", sum(r["timing_checked"] for r in res), 10000)
-    smcommon.report(ctx, res, OWNED)
     # C02.T4 on the class the decorators built
     n = 0
     for r in res:
